@@ -31,11 +31,7 @@ class MachineVariables(_Base):
         pass
 
 
-class Template(_Base):
-    value = 0
-
-    def evaluate(self, *a, **k):
-        return self.value
+from .native_common import Template, DelayManager     # noqa
 
 
 class SettingsController(_Base):
@@ -63,7 +59,7 @@ class EventManager(_Base):
 
 def native_stubs():
     return {"MachineVariables": MachineVariables, "Template": Template, "SettingsController": SettingsController,
-            "EventManager": EventManager}
+            "EventManager": EventManager, "DelayManager": DelayManager}
 
 
 def native_helpers(LOG, params, spec):
